@@ -42,7 +42,7 @@ def main(extra_checks=None, extra_na=None):
             cat, text, ref, note, tech = checks[pid]
             m['checks'].append({'property_id': pid, 'quick_cmd': 'python3 run/vp.py check %s --tier quick' % pid,
                                 'thorough_cmd': 'python3 run/vp.py check %s --tier thorough' % pid,
-                                'evidence_file': 'evidence/%s.json' % pid, 'replay_cmd_template': 'python3 run/vp.py replay {path}',
+                                'evidence_file': '/verif/evidence/%s.json' % pid, 'replay_cmd_template': 'python3 run/vp.py replay {path}',
                                 'engine': 'cbmc-contracts', 'level_claimed': {'category': cat, 'text': text, 'design_ref': ref},
                                 'level_note': note, 'technique': tech})
         else:
